@@ -13,6 +13,11 @@ program all argument values (<= 2^10, else sampled):
   exec'ing the source on plain ints/bools/tuples
   decode_output(str / list / int reading of own encoding of f(v)) == f(v)
   two output bits on one qubit => equal on every input;  decode_counts vs own merge.
+  argument purity and repeatability of the codec API: encode_input, decode_output, decode_counts,
+  format_outcome, interpret_as_qtype are each called TWICE on the same argument objects (value objects,
+  tuples written as lists, List[bool] / str / int readings of exact, shorter and longer length, with and
+  without out_len, counts dicts): own snapshot of the objects before == after each call, result 1 ==
+  result 2 (== the own oracle's value where the property defines one); the QlassF itself is unchanged.
 
 A round-trip mismatch with all codec-side checks passing is a front-end (C01) or compiler (C02)
 failure: decided by evaluating qf.expressions, counted and skipped here.
@@ -147,6 +152,75 @@ def ann_q(tj, qlist=False):
     if qlist and len(els) >= 2 and all(e == els[0] for e in els) and els[0][0] != "tuple":
         return f"Qlist[{ann_q(els[0])}, {len(els)}]"
     return "Tuple[" + ", ".join(ann_q(e, qlist) for e in els) + "]"
+
+
+# --------------------------------------------------------------------------- purity / repeatability oracle
+
+
+def snap(x):
+    """structural snapshot of an argument object (type-exact: True and 1 differ), taken before and after a call"""
+    if isinstance(x, list):
+        return ["list"] + [snap(e) for e in x]
+    if isinstance(x, tuple):
+        return ["tuple"] + [snap(e) for e in x]
+    if isinstance(x, dict):
+        return ["dict"] + [[snap(k), snap(v)] for k, v in x.items()]  # insertion order is part of the object
+    d = getattr(x, "__dict__", None)
+    extra = "" if not d else " " + json.dumps(sorted((k, repr(v)) for k, v in d.items()))
+    return f"{type(x).__name__}:{x!r}{extra}"
+
+
+def call_twice(fn, objs, canon=lambda r: r):
+    """fn() twice on the SAME argument objects -> ([result 1, result 2], [snapshot before, after 1, after 2])"""
+    states = [[snap(o) for o in objs]]
+    outs = []
+    for _ in range(2):
+        try:
+            outs.append(canon(fn()))
+        except Exception as e:  # noqa
+            outs.append({"exception": f"{type(e).__name__}: {e}"})
+        states.append([snap(o) for o in objs])
+    return outs, states
+
+
+def impure(outs, states):
+    """None when the call left its arguments alone and repeated its result, else what went wrong"""
+    if states[1] != states[0]:
+        return "modifies the object passed in"
+    if states[2] != states[0]:
+        return "modifies the object passed in (second call)"
+    if outs[0] != outs[1]:
+        return "gives a different result when called again with the same object"
+    return None
+
+
+def own_format(x, out_len):
+    """what format_outcome is documented (and pinned by the upstream tests) to return: the characters / binary
+    digits / elements in order, zero-extended at the END up to out_len, never truncated"""
+    if isinstance(x, str):
+        bits = [c == "1" for c in x]
+    elif isinstance(x, int):
+        bits = [c == "1" for c in bin(x)[2:]]
+    else:
+        bits = [bool(b) for b in x]
+    if out_len is not None and len(bits) < out_len:
+        bits = bits + [False] * (out_len - len(bits))
+    return bits
+
+
+def to_lists(v):
+    """the same argument value with every tuple written as a list (what a caller passes for a Qlist)"""
+    return [to_lists(e) for e in v] if isinstance(v, tuple) else v
+
+
+def has_error(j):
+    if j == "error":
+        return True
+    if isinstance(j, dict):
+        return any(has_error(v) for v in j.values())
+    if isinstance(j, list):
+        return any(has_error(v) for v in j)
+    return False
 
 
 # --------------------------------------------------------------------------- generator
@@ -525,6 +599,7 @@ class Checker:
                               code=oq, expected=exp_oq)
                 oq = None
         # ---- values
+        qf_before = self.qf_state(qf)
         gates = circ.qc_to_json(qf.circuit())
         classical = all(circ.is_classical(g) or g["c"] in ("Barrier", "NopGate") for g in gates)
         if not classical:
@@ -539,6 +614,8 @@ class Checker:
         all_flats = []
         readings = {}
         dec_seen = set()
+        has_tuple_arg = any(t[0] == "tuple" for t in argtys)
+        n_listvals = 0
         for idx in idxs:
             vals = arg_values(prog, idx)
             case = dict(src=prog["src"], values=vals)
@@ -547,11 +624,29 @@ class Checker:
             flat = [b for t, v in zip(argtys, vals) for b in own_flat(t, v)]
             all_flats.append(flat)
             exp_s = bstr(flat)[::-1]
-            try:
-                s = qf.encode_input(*[lib_value(T, t, v) for t, v in zip(argtys, vals)])
-            except Exception as e:  # noqa
-                res.violation(case, f"encode_input raised {type(e).__name__}: {e}")
+            # the SAME value objects are encoded twice: they must come back untouched and give the same string
+            libvals = [lib_value(T, t, v) for t, v in zip(argtys, vals)]
+            outs, states = call_twice(lambda: qf.encode_input(*libvals), libvals)
+            s = outs[0]
+            if isinstance(s, dict):
+                res.violation(case, f"encode_input raised {s['exception']}")
                 continue
+            bad = impure(outs, states)
+            if bad:
+                res.violation(case, "encode_input " + bad, code=dict(results=outs, values_after=states[1:]),
+                              expected=dict(result=exp_s, values=states[0]))
+                continue
+            if has_tuple_arg and n_listvals < 8:
+                # tuple / Qlist arguments given as (mutable) lists: same string, lists untouched
+                n_listvals += 1
+                lvals = [to_lists(x) for x in libvals]
+                louts, lstates = call_twice(lambda: qf.encode_input(*lvals), lvals)
+                lbad = impure(louts, lstates)
+                lcase = dict(case, values_as="lists")
+                res.count(lcase, bucket="purity:encode_input-lists")
+                if lbad or louts[0] != exp_s:
+                    res.violation(lcase, "encode_input of list-valued tuple arguments " + (lbad or "differs from the tuple-valued call"),
+                                  code=dict(results=louts, values_after=lstates[1:]), expected=dict(result=exp_s, values=lstates[0]))
             if s != exp_s:
                 res.violation(case, "encode_input: character j is not the bit of input qubit n-1-j "
                                     "(arguments in order, tuples depth-first, little-endian elements)", code=s, expected=exp_s)
@@ -573,7 +668,7 @@ class Checker:
             rd = bstr(exp_bits)[::-1]
             if rd not in dec_seen:
                 dec_seen.add(rd)
-                self.check_decode(qf, prog, case, rd, expected)
+                self.check_decode(qf, prog, case, rd, expected, rng if prog.get("random") else None)
             # ---- the round trip through the real circuit
             if oq is None or not classical:
                 continue
@@ -630,18 +725,39 @@ class Checker:
         # ---- decode_counts on the observed readings (plus readings with an extra high character)
         if readings:
             self.check_counts(qf, prog, pcase, readings, m)
+        # ---- the codec calls above are queries: the function object they were made on is as it was
+        qf_after = self.qf_state(qf)
+        if qf_after != qf_before:
+            diff = {k: dict(before=qf_before[k], after=qf_after[k]) for k in qf_before if qf_before[k] != qf_after[k]}
+            res.violation(pcase, "encode_input / decode_output / decode_counts changed the QlassF they were called on", code=diff)
         return exhaustive
 
-    def check_decode(self, qf, prog, case, rd, expected):
+    @staticmethod
+    def qf_state(qf):
+        c = qf.circuit()
+        try:
+            oq = list(qf.output_qubits)
+        except Exception as e:  # noqa
+            oq = f"{type(e).__name__}: {e}"
+        return dict(name=qf.name, arg_bitvecs=[list(a.bitvec) for a in qf.args], ret_bitvec=list(qf.returns.bitvec),
+                    arg_types=[repr(a.ttype) for a in qf.args], ret_type=repr(qf.returns.ttype),
+                    input_qubits=list(qf.input_qubits), output_qubits=oq, qubit_map=list(c.qubit_map.items()),
+                    num_qubits=c.num_qubits, gates=len(c.gates), expressions=len(qf.expressions))
+
+    def check_decode(self, qf, prog, case, rd, expected, rng=None):
         res, ret = self.res, prog["ret"]
         m = len(rd)
         forms = [("str", rd), ("list", [c == "1" for c in rd]), ("int", int(rd, 2))]
         for form, x in forms:
-            try:
-                got = code_val_to_json(ret, qf.decode_output(x))
-            except Exception as e:  # noqa
-                got = {"exception": f"{type(e).__name__}: {e}"}
+            # the SAME reading object is decoded twice (display, then check): untouched, same value both times
+            outs, states = call_twice(lambda: qf.decode_output(x), [x], lambda r: code_val_to_json(ret, r))
+            got = outs[0]
             dcase = dict(ret=ret, form=form, reading=rd)
+            bad = impure(outs, states)
+            if bad:
+                res.violation(dict(dcase, src=prog["src"]), f"decode_output({form} reading) " + bad,
+                              code=dict(first=outs[0], second=outs[1], reading_after=[st[0] for st in states[1:]]),
+                              expected=dict(value=expected, reading=states[0][0]))
             req = dict(op="c05.decode", ret=ret, form=("int" if form == "int" else "str"), quirks=self.quirks)
             if form == "int":
                 req["n"] = x
@@ -676,6 +792,86 @@ class Checker:
                     res.disagree(dict(src=prog["src"], ret=ret, reading=x), "model and code differ on decode_output of a short/long reading",
                                  code=got, model=rep.get("value"))
             self.ask(dict(op="c05.decode", ret=ret, form="str", bits=x, quirks=self.quirks), cb2)
+        if self._nshort[prog["name"]] <= 4:
+            self.check_pure(qf, prog, rd, expected, None)
+        if rng is not None and self._nshort[prog["name"]] <= 2:
+            self.check_pure(qf, prog, rd, expected, rng)
+
+    def check_pure(self, qf, prog, rd, expected, rng):
+        """format_outcome / interpret_as_qtype called directly, twice on the same reading object: str, int and
+        List[bool] readings of the exact, a shorter and a longer length, without out_len, with the return width
+        and with a larger one.  Oracle: the reading object is as before (own snapshot), both results are equal,
+        format_outcome == own_format, interpret_as_qtype(exact reading) == the value.  `rng`: extra random variants."""
+        res, ret, T = self.res, prog["ret"], self.T
+        m = len(rd)
+        ttype = qf.returns.ttype
+        if rng is None:
+            combos = [(rd, None), (rd, m), (rd, m + 2), ("1" + rd, None), ("1" + rd, m)]
+            if m > 1:
+                combos += [(rd[1:], None), (rd[1:], m), (rd[: m // 2], m + 1)]
+        else:
+            combos = []
+            for _ in range(3):
+                k = rng.randint(1, m + 2)
+                r = "".join(rng.choice("01") for _ in range(k))
+                combos.append((r, rng.choice([None, m, k, rng.randint(1, m + 3)])))
+        fid = self.active.get("formatOutcomePadsInPlace")
+        for r, out_len in combos:
+            for form in ("str", "list", "int"):
+                def mk(r=r, form=form):
+                    return r if form == "str" else ([c == "1" for c in r] if form == "list" else int(r, 2))
+                nbits = len(bin(int(r, 2))) - 2 if form == "int" else len(r)
+                pcase = dict(src=prog["src"], ret=ret, form=form, reading=r, out_len=out_len)
+                res.count(pcase, bucket="purity:" + form)
+                x1, x2 = mk(), mk()
+                fouts, fstates = call_twice(lambda: T.format_outcome(x1, out_len), [x1], lambda l: bstr(l) if isinstance(l, list) else repr(l))
+                iouts, istates = call_twice(lambda: T.interpret_as_qtype(x2, ttype, out_len), [x2], lambda v: code_val_to_json(ret, v))
+                exp_fmt = bstr(own_format(mk(), out_len))
+                exact = nbits == m and out_len in (None, m)
+                # value of an exact-width reading by the own decoder (first character = last return bit)
+                exp_val = own_unflat(ret, own_format(mk(), None)[::-1]) if exact else None
+                trigger = form == "list" and out_len is not None and len(r) < out_len
+
+                def cb(rep, pcase=pcase, fouts=fouts, fstates=fstates, iouts=iouts, istates=istates, exp_fmt=exp_fmt,
+                       exact=exact, exp_val=exp_val, trigger=trigger, form=form):
+                    mval = "error" if has_error(rep.get("value")) else rep.get("value")
+                    ival = ["error" if isinstance(o, dict) and "exception" in o else o for o in iouts]
+                    if rep.get("fmt") != fouts[0]:
+                        res.disagree(pcase, "model and code differ on format_outcome", code=fouts[0], model=rep.get("fmt"))
+                    # a Qfixed decoded from MORE bits than its type has is a float with extra fractional bits: outside
+                    # the model's value domain (scaled integers), canonicalised as {"?": ...} - not compared
+                    if mval != ival[0] and '"?"' not in json.dumps(ival[0]):
+                        res.disagree(pcase, "model and code differ on interpret_as_qtype", code=iouts[0], model=rep.get("value"))
+                    after = None if form != "list" else ["list"] + [f"bool:{c == '1'}" for c in rep.get("arg_after", "")]
+                    for api, outs, states in (("format_outcome", fouts, fstates), ("interpret_as_qtype", iouts, istates)):
+                        bad = impure(outs, states)
+                        if bad is None:
+                            if form == "list" and after != states[0][0]:
+                                res.disagree(pcase, f"model and code differ on the reading object after {api}", code=states[1][0], model=after)
+                            continue
+                        # known only if: the finding is active, a List[bool] reading shorter than out_len (the trigger), the
+                        # quirk-model predicts exactly the list the caller is left with, and nothing else is wrong
+                        if (fid and trigger and states[1] == states[2] == [after] and outs[0] == outs[1]
+                                and (api != "format_outcome" or outs[0] == exp_fmt)):
+                            res.known(fid)
+                        else:
+                            res.violation(pcase, f"{api}({form} reading, out_len={pcase['out_len']}) " + bad,
+                                          code=dict(first=outs[0], second=outs[1], reading_after=[st[0] for st in states[1:]]),
+                                          expected=dict(reading=states[0][0]))
+                    if fouts[0] != exp_fmt:
+                        res.violation(pcase, "format_outcome does not return the reading zero-extended at the end to out_len",
+                                      code=fouts[0], expected=exp_fmt)
+                    if exact and iouts[0] != exp_val:
+                        res.violation(pcase, "interpret_as_qtype(reading of the encoding of a value) does not return the value",
+                                      code=iouts[0], expected=exp_val)
+                req = dict(op="c05.pure", ret=ret, form=("int" if form == "int" else "str"), quirks=self.quirks)
+                if form == "int":
+                    req["n"] = int(r, 2)
+                else:
+                    req["bits"] = r
+                if out_len is not None:
+                    req["out_len"] = out_len
+                self.ask(req, cb)
 
     def check_counts(self, qf, prog, pcase, readings, m):
         res, ret = self.res, prog["ret"]
@@ -691,11 +887,19 @@ class Checker:
                 exp[key] = exp.get(key, 0) + c
             if discard:
                 exp = {k: v for k, v in exp.items() if v >= discard}
-            try:
-                out = qf.decode_counts(dict(counts), discard) if discard is not None else qf.decode_counts(dict(counts))
-                got = [[code_val_to_json(ret, k), v] for k, v in out.items()]
-            except Exception as e:  # noqa
-                res.violation(dict(pcase, counts=counts), f"decode_counts raised {type(e).__name__}: {e}")
+            arg = dict(counts)  # the SAME dict object is decoded twice: untouched (keys, order, numbers), same result
+            outs, states = call_twice(
+                (lambda: qf.decode_counts(arg, discard)) if discard is not None else (lambda: qf.decode_counts(arg)),
+                [arg], lambda out: [[code_val_to_json(ret, k), v] for k, v in out.items()])
+            got = outs[0]
+            if isinstance(got, dict):
+                res.violation(dict(pcase, counts=counts), f"decode_counts raised {got['exception']}")
+                return
+            bad = impure(outs, states)
+            if bad:
+                res.violation(dict(pcase, counts=counts, discard_lower=discard), "decode_counts " + bad,
+                              code=dict(first=outs[0], second=outs[1], counts_after=[st[0] for st in states[1:]]),
+                              expected=dict(counts=states[0][0]))
                 return
             gotd = {json.dumps(k, sort_keys=True): v for k, v in got}
             ccase = dict(pcase, counts=counts, discard_lower=discard)
@@ -731,6 +935,12 @@ def witness_fails(ctx: Ctx, f):
     if q == "formatOutcomeIntPadRight":
         qf = qlassf(w.get("src", WITNESS_SRC[q]), to_compile=True)
         return int(qf.decode_output(w.get("reading_int", 1))) != w.get("expected", 1)
+    if q == "formatOutcomePadsInPlace":
+        T = importlib.import_module("qlasskit.types")
+        reading = [bool(b) for b in w.get("reading", [True])]
+        kept = list(reading)
+        T.format_outcome(reading, w.get("out_len", 4))
+        return reading != kept
     return None
 
 
@@ -742,7 +952,8 @@ def run(ctx: Ctx) -> Result:
         "case = (program source, argument values): systematic slice (every scalar type and tuple shape as "
         "identity / rebuild / regroup / pack / local-variable / operator program) with ALL argument values, then "
         "random signatures (1-3 args, nested tuples, Qlist) x return forms with all values when <= 2^10 else "
-        "sampled; non-trivial = non-zero input and a multi-argument or tuple-typed signature"
+        "sampled; non-trivial = non-zero input and a multi-argument or tuple-typed signature; plus per program "
+        "(reading, str/list/int form, out_len) cases of format_outcome / interpret_as_qtype called twice on one object"
     )
     max_exh = 10
     n_samples = 400 if ctx.thorough else 120
@@ -757,6 +968,7 @@ def run(ctx: Ctx) -> Result:
     for i in range(n_random):
         prng = random.Random(f"C05-{ctx.seed}-{i}")  # every program replays alone
         p = random_program(prng, i, maxbits if i % 4 else min(maxbits, 8))
+        p["random"] = True
         ck.check_program(p, max_exh, n_samples, prng)
         if len(ck.reqs) > 20000:
             ck.flush()
@@ -769,6 +981,10 @@ def run(ctx: Ctx) -> Result:
                      f"to the compiler (C02): {ck.stats['skipped_c02']} - counted and skipped, not reported here")
     res.assumptions.append("C05: what the circuit computes (C02) and what the expressions mean (C01) are hypotheses of "
                            "C05_statement; the harness measures them on every case and skips cases they fail")
+    res.notes.append("every encode_input / decode_output / decode_counts call of the run is made twice on the same argument "
+                     "objects (snapshot before == after, result repeated); format_outcome / interpret_as_qtype directly on "
+                     "the first 4 distinct readings of every program x 8 (reading length, out_len) combinations x 3 forms, "
+                     "plus 3 random (reading, out_len) draws x 3 forms on the first 2 readings of every random program")
     res.assumptions.append("C05: bit names are modelled structurally (base, index path); printing base.i.j is assumed "
                            "injective (Python identifiers contain no '.')")
     if ck.stats["programs"] and ck.stats["rejected"] > ck.stats["programs"] // 2:
@@ -799,6 +1015,7 @@ def replay(ctx: Ctx, payload):
         for i in range(1200 if tier == "thorough" else 120):
             prng = random.Random(f"C05-{payload.get('seed', 0)}-{i}")
             p = random_program(prng, i, maxbits if i % 4 else min(maxbits, 8))
+            p["random"] = True
             if p["src"] == src:
                 prog = p
                 break
